@@ -236,7 +236,16 @@ def eval_any(case, rng):
             c = tlssynth.build_conn(tlssynth.Spec(version=0x0303, suite=0x009C, app=[("c", b"hello")]), rng)
             noise.append(scene.tls_on_other_port(c, rng, k))
     items = scene.merge(flows + noise, rng, rng.choice(["random", "bursty", "concat"])) if flows or noise else []
-    fault = rng.choice(["none", "none", "delete", "truncate", "nokeys", "somekeys", "wrongkeys", "flip", "headless", "snap"])
+    fault = rng.choice(["none", "none", "delete", "truncate", "nokeys", "somekeys", "wrongkeys", "flip", "headless", "snap", "stale"])
+    if items and fault == "stale":
+        # keep-alive probes and retransmissions that start inside an earlier segment: segments that lie (partly) below what their direction has already delivered
+        tls = [k for k, f in enumerate(flows) if f.kind == "tls"]
+        for _ in range(rng.randrange(1, 4)):
+            if tls:
+                k = rng.choice(tls)
+                st = scene.stale_item(items, flows[k].ep, rng, conn=k)
+                if st:
+                    items.insert(st[0], st[1])
     if items and fault == "delete":
         for _ in range(rng.randrange(1, 4)):
             if items:
